@@ -8,11 +8,21 @@ pub struct Pool {
 impl Pool {
     pub fn load() -> Pool {
         let repo = std::env::var("VERIF_REPO").unwrap_or_else(|_| "/repo".to_string());
+        // Signing pool: freshly generated ECDSA P-256 keys.  ECDSA signatures are randomized, so two
+        // signatures by one key over the same bytes are byte-different - the general case the symbolic
+        // model covers (ed25519 would collapse them into byte-identical duplicates).
         let mut ed = Vec::new();
-        for i in 1..=6 {
-            let p = format!("{}/tests/ed25519/ed25519-{}.pk8.der", repo, i);
-            let der = std::fs::read(&p).expect("read key");
-            ed.push(PrivateKey::from_pkcs8(&der, SignatureScheme::Ed25519).expect("parse key"));
+        if std::env::var("VERIF_POOL").map(|v| v == "ed25519").unwrap_or(false) {
+            for i in 1..=6 {
+                let p = format!("{}/tests/ed25519/ed25519-{}.pk8.der", repo, i);
+                let der = std::fs::read(&p).expect("read key");
+                ed.push(PrivateKey::from_pkcs8(&der, SignatureScheme::Ed25519).expect("parse key"));
+            }
+        } else {
+            for _ in 0..6 {
+                let der = PrivateKey::new(in_toto::crypto::KeyType::Ecdsa).expect("generate key");
+                ed.push(PrivateKey::from_pkcs8(&der, SignatureScheme::EcdsaP256Sha256).expect("parse generated key"));
+            }
         }
         Pool { ed }
     }
